@@ -29,7 +29,7 @@ struct Cfg {
         s << "]"; return s.str();
     }
     std::string sizeclass() const {   // coarse class for violation keys
-        long mx = -1; for (long x : sizes) mx = std::max(mx, x);   // -1/-2 are fixed-size objects
+        long mx = -1; for (long x : sizes) mx = std::max(mx, x <= -1000 ? -x - 1000 - 48 : x);   // -1/-2 are fixed-size objects, <= -1000 unknown objects of that declared size
         long eff = (mx < 0 ? 48 : 48 + mx);
         long b = B > 0 ? B : 0x20000;
         std::string s = eff > b + (long)C ? "obj>buffer+container" : eff > b ? "obj>buffer" : eff > (long)C ? "obj>container" : "obj<=container";
@@ -71,7 +71,11 @@ static Cfg make_cfg(uint64_t seed, long ci) {
         if (c.shipped && s > 700000) s = 700000;
         c.sizes.push_back(s);
     }
-    c.k = (c.kind == 1 || c.kind == 2) ? (int)r.below(n + 1) : n;
+    bool reading = c.kind == 0 || c.kind == 1 || c.kind == 2 || c.kind == 5;
+    if (reading && r.chance(1, 4))     // unknown-type objects (skipped by size; body may contain a complete fake object): value -(1000 + declared size)
+        for (size_t i = 0; i < c.sizes.size(); i++) if (r.chance(1, 3)) { long sz = 16 + (long)r.below((uint32_t)std::min<long>(b + c.C, 3000)); c.sizes[i] = -(1000 + sz); }
+    int nknown = 0; for (long x : c.sizes) if (x > -1000) nknown++;
+    c.k = (c.kind == 1 || c.kind == 2) ? (int)r.below(nknown + 1) : nknown;
     return c;
 }
 
@@ -83,7 +87,11 @@ static twin::Bytes make_stream(const Cfg & c) {
     twin::Bytes s;
     for (size_t i = 0; i < c.sizes.size(); i++) {
         twin::Bytes o;
-        if (c.sizes[i] == -2) { LinMessage2 * m = make_lin(1000 + (uint32_t)i); MemFile mf; m->write(mf); delete m; o = mf.buf; }   // encoded by the codec (C01-C03 cover it), wrapped independently
+        if (c.sizes[i] <= -1000) {
+            uint32_t sz = (uint32_t)(-c.sizes[i] - 1000); o = twin::unknown_object(200 + (uint32_t)i % 50, sz, 0xEE);
+            if (sz >= 16 + 48 + 4) { twin::Bytes fake = twin::can_message(999999); memcpy(&o[16 + (i % 3) * 4], fake.data(), fake.size()); }   // a reader that resumes inside the body would deliver this
+        }
+        else if (c.sizes[i] == -2) { LinMessage2 * m = make_lin(1000 + (uint32_t)i); MemFile mf; m->write(mf); delete m; o = mf.buf; }   // encoded by the codec (C01-C03 cover it), wrapped independently
         else o = c.sizes[i] < 0 ? twin::can_message(1000 + i) : twin::app_text(1000 + i, (size_t)c.sizes[i]);
         s.insert(s.end(), o.begin(), o.end());
     }
@@ -142,13 +150,14 @@ static RunOut session(const Cfg & c, const std::string & path, bool controlled, 
             f->open(path.c_str(), std::ios_base::in);
             if (!f->is_open()) out.err = "open(in) failed";
             else {
+                std::vector<size_t> known; for (size_t q = 0; q < c.sizes.size(); q++) if (c.sizes[q] > -1000) known.push_back(q);
                 size_t n = (c.kind == 5) ? 0 : (size_t)c.k;
                 size_t i = 0;
                 for (; i < n && out.err.empty(); i++) {
                     ObjectHeaderBase * o = f->read();
-                    if (!o) { out.err = "null after " + std::to_string(i) + " of " + std::to_string(c.sizes.size()) + " objects"; break; }
+                    if (!o) { out.err = "null after " + std::to_string(i) + " of " + std::to_string(known.size()) + " objects"; break; }
                     if (!f->good() || f->eof()) out.err = "flags after object " + std::to_string(i);
-                    std::string e = check_and_consume(o, c, i);
+                    std::string e = check_and_consume(o, c, known[i]);
                     if (!e.empty() && out.err.empty()) out.err = "object " + std::to_string(i) + ": " + e;
                 }
                 if (c.kind == 0 && out.err.empty()) {
